@@ -70,7 +70,7 @@ func (c *capBuf) Write(p []byte) (int, error) {
 	return len(p), nil
 }
 
-var reFrame = regexp.MustCompile(`(?m)^\s+(go\.sia\.tech/core/[^\s(]+)\(`)
+var reFrame = regexp.MustCompile(`(?m)^\s+(go\.sia\.tech/core/\S+?)\(\)\s*$`)
 
 func supervise() {
 	c := vlib.Start("C09")
@@ -435,7 +435,7 @@ func work() {
 	probeElements(e.cb)
 
 	// 3. the real code under concurrency
-	num, depth := c.Pick(40, 700), 56
+	num, depth := c.Pick(50, 700), 56
 	t0 := time.Now()
 	for _, shape := range []string{"v1only", "mixed", "v2only"} {
 		e.runShape(shape, num, depth)
@@ -681,20 +681,30 @@ func head(r []reject, n int) []reject {
 	return r
 }
 
-// judge turns the rejected lines of one trace file into verdicts about the code.
+// judge turns the rejected lines of one trace file into verdicts about the code (one per class of failure; the
+// first instance of a class is re-executed).
 func judge(c *vlib.Ctx, lines []Event, rj []reject) {
+	sort.Slice(rj, func(i, j int) bool { return rj[i].Line < rj[j].Line })
+	seen := map[string]int{}
+	attempts := 0
 	for _, r := range rj {
 		if !strings.HasPrefix(r.Msg, "V:") {
 			c.Infra("trace filed wrongly (line %d): %s", r.Line, r.Msg)
 			continue
 		}
-		ev := lines[r.Line-1]
 		info := describe(lines, r)
 		key := info.key
+		seen[key]++
+		if seen[key] > 1 {
+			continue
+		}
 		ci := info.cs
 		payload := map[string]any{"kind": "case", "clause": r.Msg, "key": key, "detail": info.what}
 		reproduced := false
-		if ci != nil {
+		tried := false
+		if ci != nil && attempts < 10 {
+			attempts++
+			tried = true
 			payload["params"], payload["behaviour"], payload["g"], payload["shape"] = ci.params, ci.beh, ci.g, ci.shape
 			for try := 0; try < 3 && !reproduced; try++ {
 				keys, err := rerun(ci)
@@ -707,11 +717,13 @@ func judge(c *vlib.Ctx, lines []Event, rj []reject) {
 		}
 		payload["reproduced_on_reexecution"] = reproduced
 		what := info.what
-		if !reproduced {
+		if tried && !reproduced {
 			what += " (seen in the recorded run; three re-executions of the case did not show it again: schedule dependent)"
 		}
-		_ = ev
 		c.Violation(key, what, payload)
+	}
+	if len(seen) > 0 {
+		c.Cov("rejected_lines_by_class", seen)
 	}
 }
 
@@ -781,6 +793,9 @@ func describe(lines []Event, r reject) described {
 			part = changedParts(prevDigest(b.Mem), ev.D)
 		}
 		d.key = fmt.Sprintf("%s/%s/%s", name, info.fn, part)
+		if name == "input-modified-by-concurrent-call" {
+			d.key = "input-modified-by-another-call/" + part // the culprit is some other call that reaches the same memory
+		}
 		d.what = fmt.Sprintf("%s on the %s inputs: the %s passed in differs after the call from what it was before (deep digest %s -> %s), %d goroutine(s)", info.fn, info.kind, part, b.D, ev.D, info.cs.g)
 	case "input-changed-between-calls", "input-changed-when-quiet":
 		mem := ev.Mem
@@ -802,7 +817,7 @@ func describe(lines []Event, r reject) described {
 			}
 			d.key = fmt.Sprintf("input-modified-by-copying/%s", part)
 		} else {
-			d.key = fmt.Sprintf("%s/%s/%s", name, who, part)
+			d.key = "input-modified-by-another-call/" + part
 		}
 		d.what = fmt.Sprintf("the %s of the %s inputs changed while no call on it was being logged (last activity: %s)", part, kind, who)
 	case "result-differs":
@@ -825,7 +840,7 @@ func describe(lines []Event, r reject) described {
 				sort.Strings(ks)
 				other = strings.Join(ks, "-vs-")
 			}
-			d.key = fmt.Sprintf("result-differs/%s/%s", info.fn, other)
+			d.key = "result-differs/" + info.fn
 			fr := ""
 			if first != nil {
 				fr = first.Res
